@@ -733,6 +733,11 @@ class Evaluator:
         if T.tag(c) == 'phi' and _depth < 24:
             # a condition that is itself a decision tree: branch on its root condition first
             c1 = c[1]
+            d1 = self.decide(c1, fr)
+            if d1 == T.TRUE:        # the facts of the path settle the root: only that side exists
+                return self._if(self.decide(c[2], fr), body, orelse, fr, _depth)
+            if d1 == T.FALSE:
+                return self._if(self.decide(c[3], fr), body, orelse, fr, _depth)
             env0, facts0, heap0 = dict(fr.env), fr.facts, dict(self.heap)
             fr.facts = facts0.add(c1)
             self._refine(fr, c1)
